@@ -482,3 +482,26 @@ def result_kind_of_ret(fn):
             else:
                 out.append((b, "expr", E("unknown")))
     return out
+
+
+def deep_repr(e, depth=0):
+    """Textual form of an expression with call arguments expanded (bounded depth)."""
+    if e is None:
+        return "?"
+    if depth > 8:
+        return "..."
+    if e.k == "call":
+        return "%s(%s)" % (e.a.rpath.split("::")[-1], ", ".join(deep_repr(a, depth + 1) for a in call_arg_exprs(e.a)))
+    if e.k == "binop":
+        return "(%s %s %s)" % (deep_repr(e.b, depth + 1), e.a, deep_repr(e.c, depth + 1))
+    if e.k == "unop":
+        return "%s(%s)" % (e.a, deep_repr(e.b, depth + 1))
+    if e.k in ("cast", "discr", "repeat"):
+        return "%s(%s)" % (e.k, deep_repr(e.a, depth + 1))
+    if e.k == "field":
+        return "%s.%s" % (deep_repr(e.a, depth + 1), e.b)
+    if e.k == "index":
+        return "%s[%s]" % (deep_repr(e.a, depth + 1), deep_repr(e.b, depth + 1) if isinstance(e.b, E) else "?")
+    if e.k == "agg":
+        return "%s::%s{%s}" % (e.a, e.b, ", ".join(deep_repr(o, depth + 1) for o in (e.c or [])))
+    return repr(e)
